@@ -46,7 +46,10 @@ impl_into_fixed_decimal!(
 
 impl IntoFixedDecimal for f32 {
     fn to_fixed_decimal(self) -> FixedDecimal {
-        FixedDecimal::try_from_f64(Into::into(self), FloatPrecision::Floating)
+        // the shortest decimal that reads back as this `f32`:
+        // going through `f64` would format `0.1_f32` as "0.10000000149011612"
+        self.to_string()
+            .parse()
             .expect("A FixedDecimal from a f32")
     }
 }
